@@ -35,6 +35,7 @@ ASSUMPTIONS = ["harness call bodies contain explicit scheduling points so 'in fl
 @st.composite
 def cases(draw, max_nodes):
     spec = draw(specs.plan_specs(max_nodes=max_nodes, min_nodes=2, opaque=False, lits=2))
+    specs.use_dependent_literals(draw, spec["nodes"])
     spec["output"] = common.all_refs_output(spec, lits=draw(st.booleans()))
     cfg = draw(specs.run_configs(nodes=len(spec["nodes"])))
     direct = draw(st.sampled_from([True, False, False]))
